@@ -158,31 +158,10 @@ def run(out, tier):
     verdict(out, pr, "O5.consume_gas", paths, post_gas, kinds=("return", "panic"), expect=2,
             what="consume_gas adds exactly the cost; it panics only when the usize sum overflows (recorded under C01)")
 
+    fork_obligation(out, eng, ex, pr)
     th_vals, th_pres = arrs("th.0.7.2")
     th_len = z3.BitVec("th.1.1.*.len", 64)
     th_ip = z3.BitVec("th.1.0", 32)
-
-    def body_fork(ctx):
-        cell = Cell(Lazy("vm::thread::VMThread", "th"), "th")
-        r = ctx.run_fn(f_fork, [Ref(cell, ()), Int(tgt, 32)])
-        return r, cell, ctx
-    paths = ex.explore(body_fork)
-
-    def post_fork(p):
-        r, cell, ctx = p.ret
-        v = View(ctx)
-        g = v.get(r, "VMThread", "gas_usage")
-        nip = v.get(r, "VMThread", "thread", "instruction_pointer")
-        st = v.get(r, "VMThread", "state")
-        vis = v.get(st, "VMState", "visited_instructions")
-        m = v.get(vis, "VisitedOpcodes", "data") if not isinstance(vis, Lazy) else None
-        v1, p1 = map_now(m, "th.0.7.2")
-        same_counts = z3.And(count(v1, p1, K32) == count(th_vals, th_pres, K32), count(v1, p1, tgt) == count(th_vals, th_pres, tgt))
-        in_range = z3.ULT(z3.ZeroExt(32, tgt), th_len)
-        return z3.And(g.e == gas, same_counts, z3.If(in_range, nip.e == tgt, nip.e == th_ip))
-    verdict(out, pr, "O5.fork", paths, post_fork, what="fork copies gas usage and every visit count; the new thread starts at the target",
-            replay=lambda p, m: native.scenario(out, "fork_gas", {}), key="fork-does-not-copy-thread-accounting")
-
     # ---- O6 first instruction of a forked thread ---------------------------------------------------------------
     f_mark = eng.fn(">::mark_visited")
     th_max = z3.BitVec("th.0.7.1", 64)
@@ -223,6 +202,37 @@ def run(out, tier):
     thread_sites(out, eng)
     out.extra["solver_queries"] = pr.n_queries + ex.stats["queries"]
     out.extra["paths_explored"] = ex.stats["paths"]
+
+
+def fork_obligation(out, eng, ex, pr, oid="O5.fork"):
+    f_fork = eng.fn(">::fork", file="src/vm/thread.rs")
+    tgt = z3.BitVec("tgt", 32)
+    gas = z3.BitVec("th.2", 64)
+    th_vals, th_pres = arrs("th.0.7.2")
+    th_len = z3.BitVec("th.1.1.*.len", 64)
+    th_ip = z3.BitVec("th.1.0", 32)
+
+    def body_fork(ctx):
+        cell = Cell(Lazy("vm::thread::VMThread", "th"), "th")
+        r = ctx.run_fn(f_fork, [Ref(cell, ()), Int(tgt, 32)])
+        return r, cell, ctx
+    paths = ex.explore(body_fork)
+
+    def post_fork(p):
+        r, cell, ctx = p.ret
+        v = View(ctx)
+        g = v.get(r, "VMThread", "gas_usage")
+        nip = v.get(r, "VMThread", "thread", "instruction_pointer")
+        st = v.get(r, "VMThread", "state")
+        vis = v.get(st, "VMState", "visited_instructions")
+        m = v.get(vis, "VisitedOpcodes", "data") if not isinstance(vis, Lazy) else None
+        v1, p1 = map_now(m, "th.0.7.2")
+        same_counts = z3.And(count(v1, p1, K32) == count(th_vals, th_pres, K32), count(v1, p1, tgt) == count(th_vals, th_pres, tgt))
+        in_range = z3.ULT(z3.ZeroExt(32, tgt), th_len)
+        return z3.And(g.e == gas, same_counts, z3.If(in_range, nip.e == tgt, nip.e == th_ip))
+    verdict(out, pr, oid, paths, post_fork, what="fork copies gas usage and every visit count; the new thread starts at the target",
+            replay=lambda p, m: native.scenario(out, "fork_gas", {}), key="fork-does-not-copy-thread-accounting")
+
 
 
 def verdict(out, pr, oid, paths, post, pre=None, kinds=("return",), expect=None, what="", replay=None, key=None):
@@ -312,6 +322,24 @@ def jumpi_fork_guard(out, eng, pr):
                     out.obligation("O6.jumpi_fork_guard", "mirsmt", "cex-not-reproduced", time.time() - t0, witness=False, replay=rep)
                     out.inconc("O6.jumpi_fork_guard: solver model not reproduced natively: %s" % rep)
                 return
+    # O8: the per-target fork counter moves exactly with the forks (one inductive step of the fork budget)
+    def post_budget(p):
+        r, cell, ctx = p.ret
+        v = View(ctx)
+        jt = v.get(cell, "VM", "jump_targets")
+        trk = v.get(jt, "JumpTargets", "tracker") if not isinstance(jt, Lazy) else None
+        m = v.get(trk, "VisitedOpcodes", "data") if trk is not None and not isinstance(trk, Lazy) else None
+        v1, p1 = map_now(m, "vm.1.1.2")
+        v0, p0 = n["jt_vals"], n["jt_pres"]
+        forked = [e for e in ctx.events if e[0] == "fork_current_thread"]
+        t = jumps.TARGET
+        if forked:
+            return z3.And(count(v1, p1, t) == count(v0, p0, t) + 1, z3.ULE(count(v1, p1, t), n["jt_limit"]),
+                          z3.Implies(K32 != t, count(v1, p1, K32) == count(v0, p0, K32)))
+        return z3.And(count(v1, p1, t) == count(v0, p0, t), count(v1, p1, K32) == count(v0, p0, K32))
+    verdict(out, pr, "O8.fork_budget_accounting", paths, post_budget, pre=inv + [z3.ULE(count(n["jt_vals"], n["jt_pres"], jumps.TARGET), n["jt_limit"])],
+            replay=lambda p, m: native.scenario(out, "fork_budget", {}), key="fork-budget-not-tied-to-forks",
+            what="JumpI::execute raises a target's fork count by exactly one when it forks to it and leaves every fork count unchanged otherwise")
     if forks == 0:
         out.obligation("O6.jumpi_fork_guard", "mirsmt", "vacuous", time.time() - t0, witness=False)
         out.inconc("O6.jumpi_fork_guard: no path of JumpI::execute forks (vacuous)")
